@@ -22,6 +22,7 @@ import (
 	"sync"
 	ttemplate "text/template"
 	"time"
+	_ "time/tzdata" // the scenarios do not depend on the host's zoneinfo
 
 	"github.com/samber/ro"
 	robytes "github.com/samber/ro/plugins/bytes"
@@ -402,6 +403,17 @@ var Scenarios = map[string]scenario{
 		y, m, d := r.Intn(3), r.Intn(14), r.Intn(40)
 		runLift(lg, "time.AddDate", "map", times(r), rotime.AddDate(y, m, d), func(t time.Time) (time.Time, error) { return t.AddDate(y, m, d), nil })
 	},
+	"time.StartOfDay": func(lg *rec.Log, r *rand.Rand) {
+		// midnight of the same calendar day IN THE VALUE'S LOCATION (daylight-saving switch days included: the day is 23 or 25 hours long)
+		runLift(lg, "time.StartOfDay", "map", zonedTimes(r), rotime.StartOfDay(), func(t time.Time) (time.Time, error) {
+			y, m, d := t.Date()
+			return time.Date(y, m, d, 0, 0, 0, 0, t.Location()), nil
+		})
+	},
+	"time.In": func(lg *rec.Log, r *rand.Rand) {
+		loc := zones()[r.Intn(len(zones()))]
+		runLift(lg, "time.In", "map", zonedTimes(r), rotime.In(loc), func(t time.Time) (time.Time, error) { return t.In(loc), nil })
+	},
 	"template.Text": func(lg *rec.Log, r *rand.Rand) {
 		tpl := "A={{.A}} B={{.B}} {{range .C}}[{{.}}]{{end}}"
 		t := ttemplate.Must(ttemplate.New("t").Parse(tpl))
@@ -590,6 +602,33 @@ func times(r *rand.Rand) []time.Time {
 	out := make([]time.Time, n)
 	for i := range out {
 		out[i] = base[r.Intn(len(base))].Add(time.Duration(r.Intn(1e6)) * time.Second)
+	}
+	return out
+}
+
+var zoneCache []*time.Location
+
+func zones() []*time.Location {
+	if zoneCache == nil {
+		for _, n := range []string{"Europe/Paris", "America/New_York", "Australia/Lord_Howe", "Asia/Kolkata", "UTC"} {
+			if l, err := time.LoadLocation(n); err == nil {
+				zoneCache = append(zoneCache, l)
+			}
+		}
+		zoneCache = append(zoneCache, time.FixedZone("X", 5*3600+1800))
+	}
+	return zoneCache
+}
+
+// zonedTimes: instants around daylight-saving switches (and ordinary days) in real tz-database locations
+func zonedTimes(r *rand.Rand) []time.Time {
+	zs := zones()
+	days := [][3]int{{2026, 3, 29}, {2026, 10, 25}, {2026, 3, 8}, {2026, 11, 1}, {2026, 4, 5}, {2026, 10, 4}, {2026, 6, 15}, {2024, 2, 29}}
+	n := 3 + r.Intn(5)
+	out := make([]time.Time, n)
+	for i := range out {
+		d := days[r.Intn(len(days))]
+		out[i] = time.Date(d[0], time.Month(d[1]), d[2], r.Intn(24), r.Intn(60), r.Intn(60), r.Intn(1e9), zs[r.Intn(len(zs))])
 	}
 	return out
 }
